@@ -17,7 +17,7 @@ KIND = {
     "R01.1": "T", "R01.2": "T", "R01.3": "W", "R01.4": "S", "R01.5a": "S", "R01.5b": "S", "R01.6": "W+S", "R01.7": "W", "R01.8": "W", "R01.9": "S", "R01.10": "W", "R06.8": "S", "R07.9": "S", "R14.6": "S",
     "R02.1": "T", "R02.2": "T", "R02.3": "S+W", "R02.3b": "T", "R03.2b": "T", "R02.4": "T", "R02.5": "S", "R02.6": "S", "R02.7": "W",
     "R03.1": "T", "R03.2": "S", "R03.3": "T", "R03.4": "W", "R03.5": "S",
-    "R04.1": "W", "R04.2": "W", "R04.3": "W", "R04.4": "S", "R04.5": "W+S", "R04.6": "S",
+    "R04.1": "W", "R04.2": "W", "R04.3": "W", "R04.4": "S", "R04.5": "W+S", "R04.6": "S", "R04.7": "W",
     "R05.1a": "T", "R05.1b": "T", "R05.2": "W+S", "R05.3": "S", "R05.4a": "W", "R05.4b": "W", "R05.5": "W", "R06.7": "W",
     "R06.1": "T", "R06.2": "W+S", "R06.3": "W", "R06.4": "W", "R06.5": "T", "R06.6": "T", "R16.5": "W",
     "R07.1": "S", "R07.2": "T", "R07.4": "S", "R07.5": "S", "R07.6": "S", "R07.7": "W", "R07.8": "W",
